@@ -1,4 +1,68 @@
+/-
+C07 — property theorems (statements fixed by the architect; do not weaken).
+Helper lemmas: PeroVerif/Lemmas/Batching.lean.
+-/
 import PeroVerif.Model.Batching
+import PeroVerif.Lemmas.Batching
+
 namespace C07
-theorem placeholder : (1:Nat) = 1 := rfl
+open Bat
+
+/-- The processing order is a permutation of the input positions (stable sort by descending width). -/
+theorem order_perm (ws : List Nat) : (order ws).Perm (List.range ws.length) :=
+  order_perm' ws
+
+/-- Every line is processed in exactly one batch: the batches partition the processing order, for
+every list of widths (≥ 1 px) and every batch size ≥ 1; no batch is empty. -/
+theorem batches_partition (ws : List Nat) (batchSize pad : Nat) (hb : 1 ≤ batchSize) :
+    ((batches ws batchSize pad).flatMap (·.1)) = order ws ∧
+    ∀ b ∈ batches ws batchSize pad, b.1 ≠ [] :=
+  have _ := hb  -- not needed: `max 1 …` already guards the chunk size
+  ⟨(batches_spec ws batchSize pad).1, (batches_spec ws batchSize pad).2.1⟩
+
+/-- Hence every input position receives exactly one result, and it is the network's output for the
+line at that position (`process_lines … = lines.map f` under the locality assumption): independent of
+list order, of batch mates and of the batch size. -/
+theorem scatter_total {β : Type} (ws : List Nat) (batchSize pad : Nat) (hb : 1 ≤ batchSize) (out : Nat → β) :
+    scatter ws.length (batches ws batchSize pad) out = (List.range ws.length).map fun i => some (out i) := by
+  have _ := hb
+  unfold scatter
+  apply List.map_congr_left
+  intro i hi
+  rw [mem_batches_of_lt ws batchSize pad i (List.mem_range.mp hi)]
+  rfl
+
+/-- The widest line of a batch determines the tensor width; no line of the batch is wider than the
+un-padded part of the tensor unless the tensor was cropped to the engine maximum. -/
+theorem batch_width (ws : List Nat) (batchSize pad : Nat) (hb : 1 ≤ batchSize) :
+    ∀ b ∈ batches ws batchSize pad, ∀ i ∈ b.1,
+      b.2 = 480 * batchSize ∨ widthOf ws i + 2 * pad ≤ b.2 :=
+  have _ := hb
+  (batches_spec ws batchSize pad).2.2
+
+/-- The frame window is exactly the image of the un-padded columns `[pad, pad + w)` under the
+sub-sampling: a frame `t` lies in the window iff its first input column `t * sub`… precisely:
+`lo = pad / sub`, `hi = (pad + w) / sub`, so for `sub ∣ pad` the window has `⌊w / sub⌋` frames starting
+at the line's first column. -/
+theorem coords_window (pad sub w : Nat) (hs : 0 < sub) (hd : sub ∣ pad) :
+    (coords pad sub w).1 * sub = pad ∧
+    (coords pad sub w).2 - (coords pad sub w).1 = w / sub ∧
+    (coords pad sub w).1 ≤ (coords pad sub w).2 := by
+  obtain ⟨k, rfl⟩ := hd
+  simp only [coords]
+  rw [Nat.mul_div_cancel_left k hs, Nat.mul_add_div hs]
+  generalize w / sub = q
+  exact ⟨Nat.mul_comm _ _, by omega, by omega⟩
+
+/-- Sparse storage keeps every logit whose posterior is at least the threshold unchanged and nothing
+else (for any strict order given as a Boolean `lt`). -/
+theorem sparsify_keeps {R : Type} (lt : R → R → Bool) (zero thr : R) (probs logits : List R)
+    (hl : probs.length = logits.length) (i : Nat) (hi : i < logits.length) :
+    (sparsify lt zero thr probs logits)[i]? =
+      some (if lt (probs.getD i zero) thr then zero else logits.getD i zero) := by
+  have hi' : i < probs.length := hl ▸ hi
+  unfold sparsify
+  rw [List.getElem?_zipWith, List.getElem?_eq_getElem hi', List.getElem?_eq_getElem hi]
+  simp [List.getD_eq_getElem?_getD, List.getElem?_eq_getElem hi', List.getElem?_eq_getElem hi]
+
 end C07
